@@ -72,7 +72,7 @@ func main() {
 			sz++
 		}
 		b := bound
-		if (!c.Thorough() && sz > 3) || sz > 5 {
+		if (!c.Thorough() && sz > 3) || sz > 4 {
 			b = 1
 		}
 		sc := mk(scs[u.sc])
